@@ -65,35 +65,52 @@ impl MC {
     pub fn add_t(&mut self, p: MT) {
         upsert(&mut self.t, p, |q| q.time);
     }
-    pub fn add_d(&mut self, p: MD) {
-        let red = match active(&self.d, p.time, |q| q.time) {
+    /// does the point merely repeat what is active at its time?
+    pub fn red_d(&self, p: &MD) -> bool {
+        match active(&self.d, p.time, |q| q.time) {
             Some(i) => self.d[i].ticks == p.ticks && (self.d[i].sv - p.sv).abs() < f64::EPSILON,
             None => p.ticks && (p.sv - 1.0).abs() < f64::EPSILON,
-        };
-        if !red {
-            upsert(&mut self.d, p, |q| q.time);
         }
     }
-    pub fn add_e(&mut self, p: ME) {
-        let red = match active(&self.e, p.time, |q| q.time) {
+    pub fn red_e(&self, p: &ME) -> bool {
+        match active(&self.e, p.time, |q| q.time) {
             Some(i) => self.e[i].kiai == p.kiai && (self.e[i].scroll - p.scroll).abs() < f64::EPSILON,
             None => !p.kiai && (p.scroll - 1.0).abs() < f64::EPSILON,
-        };
-        if !red {
-            upsert(&mut self.e, p, |q| q.time);
         }
     }
-    pub fn add_s(&mut self, p: MS) {
-        let red = match active(&self.s, p.time, |q| q.time) {
+    pub fn red_s(&self, p: &MS) -> bool {
+        match active(&self.s, p.time, |q| q.time) {
             Some(i) => {
                 let q = &self.s[i];
                 q.bank == p.bank && q.vol == p.vol && q.custom == p.custom
             }
             None => false,
-        };
-        if !red {
+        }
+    }
+    pub fn add_d(&mut self, p: MD) {
+        if !self.red_d(&p) {
+            upsert(&mut self.d, p, |q| q.time);
+        }
+    }
+    pub fn add_e(&mut self, p: ME) {
+        if !self.red_e(&p) {
+            upsert(&mut self.e, p, |q| q.time);
+        }
+    }
+    pub fn add_s(&mut self, p: MS) {
+        if !self.red_s(&p) {
             upsert(&mut self.s, p, |q| q.time);
         }
+    }
+    /// insert-or-replace without the redundancy test (the `ControlPoint::add` trait method used directly)
+    pub fn raw_d(&mut self, p: MD) {
+        upsert(&mut self.d, p, |q| q.time);
+    }
+    pub fn raw_e(&mut self, p: ME) {
+        upsert(&mut self.e, p, |q| q.time);
+    }
+    pub fn raw_s(&mut self, p: MS) {
+        upsert(&mut self.s, p, |q| q.time);
     }
 }
 
@@ -215,6 +232,11 @@ pub fn model(lines: &[String], mode: i64, def_bank: u8, def_vol: i32) -> (MC, Ve
             if let Some(m) = ["0", "1", "2", "3"].iter().position(|x| *x == m.trim()) {
                 mode = m as i64;
             }
+            accepted.push(false);
+            continue;
+        }
+        if l.starts_with("!sec ") {
+            // a record of another section: not a timing-point line
             accepted.push(false);
             continue;
         }
